@@ -24,6 +24,11 @@ func genVestingWalk(r *rand.Rand, n int) []Step {
 	if r.Intn(3) > 0 {
 		st = append(st, Step{"a": "govVestInfo", "num": float64(pick(r, 5, 10, 10, 30)), "max": float64(3)})
 	}
+	if genIndex%6 == 1 {
+		// scripted corner: all EdenB committed, Eden committed, then part of the Eden uncommitted (burns committed EdenB)
+		st = append(st, Step{"a": "commitClaimed", "u": "u2", "d": "uedenb", "frac": "all"}, Step{"a": "commitClaimed", "u": "u2", "d": "ueden", "frac": "half"},
+			Step{"a": "block", "n": float64(2)}, Step{"a": "uncommit", "u": "u2", "d": "ueden", "frac": "third"}, Step{"a": "block", "n": float64(1)})
+	}
 	// a third start with the scripted corner: release part, cancel part, claim again at an unlucky height
 	if r.Intn(3) == 0 {
 		st = append(st, Step{"a": "vest", "u": "u1", "amt": pick(r, "1000", "1000003", "999999")}, Step{"a": "block", "n": float64(pick(r, 1, 2, 3))},
@@ -47,6 +52,9 @@ func genVestingWalk(r *rand.Rand, n int) []Step {
 			st = append(st, Step{"a": "vestNow", "u": u, "amt": pick(r, "7", "90", "180", "100000")})
 		case 13:
 			st = append(st, Step{"a": "govVestInfo", "num": float64(pick(r, 1, 2, 3, 5, 10)), "max": float64(pick(r, 1, 3, 3))})
+		case 14:
+			// Eden / EdenB in and out of the committed bucket (uncommitting Eden burns EdenB proportionally)
+			st = append(st, Step{"a": pick(r, "commitClaimed", "commitClaimed", "uncommit"), "u": u, "d": pick(r, "ueden", "uedenb"), "frac": pick(r, "third", "half", "all", "one")})
 		default:
 			st = append(st, Step{"a": "block", "n": float64(pick(r, 1, 1, 1, 2, 3, 7))})
 		}
